@@ -18,11 +18,28 @@ def case(rng, tier):
     how = rng.choice(["close", "close", "term", "drop"])
     pace = rng.choice([0, 0, 0, 50, 500])
     opts = "tr=%s,how=%s,pace_us=%d" % (tr, how, pace)
+    r = rng.random()
+    if r < 0.35:
+        opts += ",stall=1,side=bind"       # the peer does not read, and the closed socket must free its endpoint in time
+        count = min(count, 3000)
+    elif r < 0.5:
+        opts += ",side=bind"
     return ["linger %s type=%s,linger=%d,sndhwm=%d type=%s %d %d" % (opts, sty, linger, sndhwm, rty, count, size)]
 
 
+def stalled_inproc_cases(rng):
+    """a peer that does not read, over inproc (where the pipe itself holds the messages at close): LINGER 0 and a bounded LINGER
+    must still let the socket finish and free its name"""
+    out = []
+    for linger in (0, 0, 200):
+        for sty, rty in (("PUSH", "PULL"), ("DEALER", "ROUTER")):
+            out.append(["linger tr=inproc,how=close,stall=1,side=bind type=%s,linger=%d,sndhwm=1000 type=%s %d 1000"
+                        % (sty, linger, rty, rng.choice([1, 50, 500]))])
+    return out
+
+
 def gen(rng, tier):
-    return [case(rng, tier) for _ in range(40 if tier == "quick" else 500)]
+    return stalled_inproc_cases(rng) + [case(rng, tier) for _ in range(40 if tier == "quick" else 500)]
 
 
 def dist(cases):
@@ -43,7 +60,8 @@ SPEC = {
     "rule": "stack level: a sender (PUSH, DEALER; own Context) with LINGER in {-1, 0, 1 ms..10 s} sends 0..20000 numbered, self-checking messages "
             "(8 B..100 KB, up to beyond SNDHWM and kernel buffers) and then closes at once (close(), Context::term() or handle drop) while the "
             "receiver keeps reading (paced 0..500 us per message), over tcp/ipc/inproc; oracles: what arrives is a prefix of what was accepted "
-            "and every message is intact (integrity), close+term return within LINGER + 2.5 s when LINGER is bounded (time), everything arrives "
+            "and every message is intact (integrity), close+term return within LINGER + 2.5 s when LINGER is bounded and the endpoint the closed sender had bound can be bound again "
+            "within the same time, i.e. the socket has really finished (time), everything arrives "
             "when LINGER is -1 or at least 8 s (all; this is the known finding)",
     "assumptions": ["an 8 s LINGER is taken as 'longer than the transfer needs' for at most 60 MB over loopback",
                     "term() has an internal 10 s allowance for stragglers which is outside LINGER"],
